@@ -3,7 +3,7 @@ import tracemalloc
 import linecache
 
 complement = str.maketrans("ACGT", "TGCA")
-tag_regex = r"^[A-Za-z][A-Za-z][:][AifZHB][:][ !-~]*$"
+tag_regex = r"^[A-Za-z][A-Za-z0-9][:][AifZHB][:][ !-~]*$"
 
 types_regex = {
     "A": r"^[!-~]$",
@@ -23,7 +23,7 @@ def is_correct_tag(tag):
     # first check if tag follows the scheme two_letters:{AifZHB}:value
     if not re.match(tag_regex, tag):
         return False
-    name, tag_type, value = tag.split(":")
+    name, tag_type, value = tag.split(":", 2)
     if not re.match(types_regex[tag_type], value):
         return False
     return True
